@@ -35,7 +35,13 @@ FORMS = ("indices", "indices", "indices", "blocks", "blocks", "eigvecs", "symmat
 def strategy(tier):
     if tier == "thorough":
         return problems(tier, hermitian=True, max_N=10, max_block_size=4, forms=FORMS)
-    return problems(tier, hermitian=True, forms=FORMS)
+    from hypothesis import strategies as st
+
+    # one case in eight is a small exact (sympy) two-block problem with a fully or selectively diagonalised block -
+    # equal block sizes, zero blocks and symbolic masks meet there far more often than in the general stream
+    small = problems(tier, hermitian=True, min_blocks=2, max_blocks=2, max_N=4, reprs=("sympy",), selections=("full", "mask"), forms=FORMS)
+    general = problems(tier, hermitian=True, forms=FORMS)
+    return st.one_of(*([general] * 7 + [small]))
 
 
 def check_case(case, enforce_all=False):
